@@ -43,7 +43,8 @@ PosUpd(r, par, rep, Cand(_, _), DistTo(_), InRange(_), JumpOK(_, _)) ==
                             !.track = IF r.pos.some = 1 THEN Append(r.track, r.pos) ELSE r.track]
              ELSE [r EXCEPT !.even = NoRep, !.odd = NoRep, !.pos = NoPos, !.dist = NoDist]   \* stale data is never paired again
 
-Touch(planes, a) == IF a \in DOMAIN planes THEN planes ELSE planes @@ (a :> Fresh)
+Touch(planes, a) == IF a \in DOMAIN planes THEN planes
+                    ELSE [x \in DOMAIN planes \cup {a} |-> IF x = a THEN Fresh ELSE planes[x]]
 
 FrameStep(planes, f, Cand(_, _), DistTo(_), InRange(_), JumpOK(_, _)) ==
   IF ~Tracks(f) THEN planes
